@@ -132,7 +132,25 @@ EXTRA3 = {
  "C01": " The library's clients start at generated positions of their request id counter (around 10^6, 2^31, 2^32, up to 2^53 - 2000): a long-lived client's calls are answered like a fresh one's. TestC01Fault: the library's HTTP clients over real loopback TCP (net/http's keep-alive transport) against a server whose front lets the handler finish and then kills the connection (close / reset before any byte, after the status line, inside the body) for a generated subset of 1-8 calls, sequential or 2-4 at once: every handler counter stays exactly 1 (nothing is re-sent without a retry option) and a call ends with an error or its own answer.",
  "C04": " TestC04Concurrent: bursts of concurrent initialize / DELETE requests from 1-6 peers over 0-150 preloaded sessions while 1-6 goroutines poll GetActiveSessions: an answer given during a burst contains every session alive throughout and none deleted before, and after each burst the reported set equals the model's (asked twice), every live id is served and every deleted id refused. Tools that send notifications before answering (the first event commits the response headers) are part of the histories; headers are judged as committed on the wire.",
 }
-for _e in (EXTRA, EXTRA3):
+# additions made during the fourth round of seeded changes (configuration / second-use / error-path changes)
+EXTRA4 = {
+ "C01": " Calls whose result cannot be encoded run among the concurrent calls (they end with an error of their own, promptly).",
+ "C02": " Blob and binary payloads include the empty one and 100 KB.",
+ "C03": " Tool handlers may fail with errors whose chain holds context.DeadlineExceeded / context.Canceled (answered -32603 like any handler failure).",
+ "C04": " Rejected handshakes (initialize without params, with non-object params, without or with a mistyped protocolVersion): a session id named in any answer is an issued, live id.",
+ "C05": " The addressed session may answer a server-issued request with an error object (the request ends, nothing stays pending).",
+ "C07": " The server may end the listening stream cleanly, and every stream opened afterwards too: the idle client opens at most a handful of new streams and uses no CPU.",
+ "C08": " Server half: HTTP / SSE context functions that derive from the request context or return a context of their own. Fault kind stallposts: the calls are acknowledged, then every further POST hangs (the calls still end with their context).",
+ "C10": " Handlers may fail after emitting (notifications delivered, the error answer closes the stream, ids distinct); the client may be in its second or third life (Close, Initialize).",
+ "C12": " Registrations without a handler (refused or kept, the registry stays well-formed); a listed entry nobody registered is a phantom; TestC12Notif runs next to a twin server of the same kind with handlers of its own (registries are per server).",
+ "C13": " Filters may build their result by appending to a nil slice, and a class of callers is admitted to nothing.",
+ "C16": " A second handshake inside a session whose first one completed (initialize, initialized, initialize with another version).",
+ "C17": " One to two earlier retry options (WithRetry / WithSimpleRetry, grid values) precede the judged one: the configuration the client ends up with is clamped and a fixed point.",
+ "C18": " jsonschema tags may carry directives the parser does not know (multipleOf, readOnly, typos): the field stays a field. TestC18Tools also runs with a pass-through tool list filter; the input struct re-uses an inner type under described fields.",
+ "C19": " Second life of a client (Close, Initialize: handshake, listening stream and calls are customised as in the first); TerminateSession under a context that has already ended sends nothing.",
+ "C20": " TestC20Reconnect: a session's listening stream is replaced 3-40 times (with or without Last-Event-ID) while 1-4 goroutines keep sending notifications, broadcasts and server requests to it. The client workload also runs on stateless servers, with users of the session object that read before they write.",
+}
+for _e in (EXTRA, EXTRA3, EXTRA4):
     for _k, _v in _e.items():
         _t = list(T[_k]); _t[2] = _t[2] + _v; T[_k] = tuple(_t)
 
